@@ -1,12 +1,12 @@
 (* Clock/Multiplier.v — model of isobar/util.py `make_clock_multiplier` and of the device-clock phase of
    `Timeline.tick` (isobar/timelines/timeline.py).  No proofs here.
 
-   Python (util.py):
-       multiple = 1.0
+   Python (util.py, as repaired by 4b1dd74):
+       multiple = (1, 1)
        if output_clock_rate and input_clock_rate:
-           multiple = output_clock_rate / input_clock_rate
-       if <multiple is neither a whole number nor the inverse of one>:
-           raise ClockException(...)                      # generator body: raised by the FIRST next()
+           if output_clock_rate % input_clock_rate != 0 and input_clock_rate % output_clock_rate != 0:
+               raise ClockException(...)                  # generator body: raised by the FIRST next()
+           multiple = (output_clock_rate, input_clock_rate)
        pos = 1
        while True:
            rv = 0
@@ -15,12 +15,13 @@
                pos -= 1
                rv += 1
            yield rv
+   (the source text itself is translated on every run: Generated/TablesMult.v, tied to this file by Clock/MultiplierSrc.v)
 
    Time/phase is exact here: `multiple` is the rational a/b (a = output rate, b = input rate, or 1/1 when a rate
    is None/0) and `pos` is kept as an integer numerator over the denominator b.  The code's `round(pos, 8) > 1`
    test is kept ([r8]); Clock/MultiplierProofs.v shows it agrees with the exact comparison `pos > 1` whenever
-   b < 10^8.  The divisibility test is the exact one the property demands (the pinned code evaluated
-   `1/multiple != int(1/multiple)` in floats and refused 693 dividing pairs up to 1920). *)
+   b < 10^8.  The divisibility test is the one of the source, on the integer rates themselves (the pinned code evaluated
+   `1/multiple != int(1/multiple)` in floats and refused 693 dividing pairs up to 1920; repaired by 4b1dd74). *)
 From Isobar Require Import Base.Prelude.
 
 (** a clock rate as Python sees it: None, or an integer (0 is falsy like None) *)
@@ -34,10 +35,9 @@ Definition multiple_of (out inn : rate) : Z * Z :=
   | _, _ => (1, 1)
   end.
 
-(** the refusal test, read exactly:
-    (multiple > 1 and int(multiple) != multiple) or (multiple < 1 and 1/multiple != int(1/multiple)) *)
-Definition refuses (a b : Z) : bool :=
-  ((a >? b) && negb (a mod b =? 0)) || ((a <? b) && negb (b mod a =? 0)).
+(** the refusal test, as the source has it: `output % input != 0 and input % output != 0` — neither rate divides the other
+    (Python's % on ints is Z.modulo; both rates are non-zero here, see multiple_of) *)
+Definition refuses (a b : Z) : bool := negb (a mod b =? 0) && negb (b mod a =? 0).
 
 (** round(p/U, 8) in units of 10^-8 (nearest; the tie rule is irrelevant for the `> 1` test, see r8_gt_iff) *)
 Definition S8 : Z := 100000000.
